@@ -11,7 +11,7 @@ generated program and appends `MODEL-AST-DIFF` if the two semantics disagree (an
 (Imports `Spec.SemStmt` besides the models: the evaluators are core-only Lean and are what is executed here.)
 -/
 namespace RsslVerif.Driver.C01
-open RsslVerif.Gen.HlslGenTables RsslVerif.Model RsslVerif.Model.GenHlsl RsslVerif.Spec.Sem RsslVerif.Driver
+open RsslVerif.Gen.HlslGenTables RsslVerif.Gen.HlslIntrinsicTables RsslVerif.Model RsslVerif.Model.GenHlsl RsslVerif.Spec.Sem RsslVerif.Driver
 open RsslVerif.Model.Ir (Ty Var Const Dir)
 
 /-! ## s-expressions -/
@@ -130,6 +130,17 @@ partial def parseExpr? (x : Sx) : Option Ir.Expr :=
     let o ← IntrinsicOp.ofName? o.atom
     let es ← parseExprs? es
     pure (.op o es)
+  | "intr", n :: ret :: tys :: es => do
+    let i ← Intrinsic.ofName? n.atom
+    let ret ← tyOf? ret.atom
+    let ts ← sequenceOpt (tys.args.map fun t => tyOf? t.atom)
+    -- `tys` is a plain list `(t1 t2 …)`: its head is the first type
+    let ts := match tyOf? tys.head with | some t => t :: ts | none => ts
+    let t ← ts.head?
+    if ts.all (· == t) then
+      let es ← parseExprs? es
+      pure (.intr i t ret es)
+    else none
   | "call", f :: es => do
     let f ← f.atom.toNat?
     let es ← parseExprs? es
@@ -180,6 +191,11 @@ partial def parseStmt? (x : Sx) : Option Ir.Stmt :=
   | "dowhile", [b, c] => do
     let b ← parseBlock? b; let c ← parseExpr? c
     pure (.doWhile b c)
+  | "switch", [t, c, b] => do
+    let t ← tyOf? t.atom; let c ← parseExpr? c; let b ← parseBlock? b
+    pure (.switch t c b)
+  | "case", [c] => (parseConst? c).map .caseLabel
+  | "default", [] => some .defaultLabel
   | "break", [] => some .break
   | "continue", [] => some .continue
   | "ret", [] => some (.ret none)
@@ -263,6 +279,10 @@ def showStmt : HlslAst.Stmt → String
   | .continue => "(continue)"
   | .ret none => "(ret)"
   | .ret (some e) => "(ret " ++ showExpr e ++ ")"
+  | .empty => "(empty)"
+  | .switch c b => "(switch " ++ showExpr c ++ " " ++ showStmt b ++ ")"
+  | .caseLabel e s => "(case " ++ showExpr e ++ " " ++ showStmt s ++ ")"
+  | .defaultLabel s => "(default " ++ showStmt s ++ ")"
 def showStmts : HlslAst.Stmts → String
   | .nil => ""
   | .cons s r => " " ++ showStmt s ++ showStmts r
@@ -294,6 +314,22 @@ def concretePrim : Prim where
   f2u x := (x ^^^ 0x4F000000#32) * 0xCCCCCCCD#32
   f2b x := (x &&& 0x7FFFFFFF#32) != 0
   d2f d := d.truncate 32 ^^^ (d >>> 32).truncate 32
+  intr i t vals :=
+    let step (h : UInt32) (x : UInt32) : UInt32 := (h ^^^ x) * 16777619
+    let bytes (s : String) (h : UInt32) : UInt32 := s.toList.foldl (fun h c => step h c.toNat.toUInt32) h
+    let tyName : Ty → String
+      | .bool => "bool" | .int => "int" | .uint => "uint" | .float => "float" | .lit => "lit" | .flit => "flit" | .void => "void"
+    let payload : Val → UInt32
+      | .b x => if x then 1 else 0
+      | .i x => x.toNat.toUInt32 | .u x => x.toNat.toUInt32 | .f x => x.toNat.toUInt32
+      | _ => 0xdead
+    let h := vals.foldl (fun h v => step h (payload v)) (bytes (tyName t) (bytes i.name 2166136261))
+    match Ast.builtinRet i t with
+    | .bool => some (.b (h &&& 1 == 1))
+    | .int => some (.i (BitVec.ofNat 32 h.toNat))
+    | .uint => some (.u (BitVec.ofNat 32 h.toNat))
+    | .float => some (.f (BitVec.ofNat 32 h.toNat))
+    | _ => none
 
 def FUEL : Nat := 64
 def DEPTH : Nat := 12
@@ -352,6 +388,7 @@ partial def exprVars : Ir.Expr → List Nat
   | .seq a => exprsVars a
   | .cast _ e => exprVars e
   | .call _ a => exprsVars a
+  | .intr _ _ _ a => exprsVars a
   | _ => []
 partial def exprsVars : Ir.Exprs → List Nat
   | .nil => []
@@ -377,6 +414,7 @@ partial def stmtVars : Ir.Stmt → List Nat
   | .while c b => exprVars c ++ stmtsVars b
   | .doWhile b c => stmtsVars b ++ exprVars c
   | .ret e => optVars e
+  | .switch _ c b => exprVars c ++ stmtsVars b
   | _ => []
 partial def stmtsVars : Ir.Stmts → List Nat
   | .nil => []
